@@ -149,7 +149,7 @@ REQ_FAULTS = [
     ('cl-hex', 1), ('cl-junk', 2), ('cl-empty', 1), ('cl-huge', 1), ('cl-leading-zero', 1), ('cl-tab', 2), ('cl-second-bad', 2),
     ('ws-colon-cl', 3), ('ws-colon-te', 2), ('ws-colon-other', 2), ('tab-colon', 1),
     ('te-gzip-chunked', 3), ('te-chunked-gzip', 3), ('te-gzip', 2), ('te-identity', 1), ('te-two-headers', 2), ('te-case', 2),
-    ('te-tab', 2), ('te-and-cl', 3), ('te-gzip-and-cl', 2), ('te-empty', 1), ('te-params', 1), ('te-chunked-chunked', 1), ('te-http10', 1),
+    ('te-tab', 2), ('te-and-cl', 3), ('te-gzip-and-cl', 2), ('te-empty', 1), ('te-params', 1), ('te-chunked-chunked', 1), ('te-http10', 3),
     ('chunk-ext', 4), ('chunk-size-bad', 3), ('chunk-size-junk', 2), ('chunk-size-huge', 2), ('chunk-size-over', 1), ('chunk-size-under', 1),
     ('chunk-no-crlf', 1), ('chunk-extra-crlf', 1), ('no-last-chunk', 1), ('trailers', 3), ('trailer-smuggle', 2), ('trailer-bad', 1),
     ('obs-fold', 3), ('obs-fold-cl', 1), ('leading-fold', 1), ('no-colon', 1), ('empty-name', 1), ('bad-name', 1), ('nul-value', 2),
